@@ -35,10 +35,10 @@ const KEYS: &[&str] = &["wrap_column", "begin_style", "format_multiline_strings"
 fn gen_value(t: &mut Tape, key: &str, toml: bool) -> String {
     let q = |s: &str| if toml { format!("\"{s}\"") } else { s.to_string() };
     match key {
-        "wrap_column" => (*t.pick(&[40u32, 60, 80, 100, 120, 30, 200])).to_string(),
+        "wrap_column" => (*t.pick(&[40u32, 60, 80, 100, 120, 30, 200, 10, 12, 16, 24, 8, 4294967295])).to_string(),
         "begin_style" => q(*t.pick(&["auto", "always_wrap"])),
         "format_multiline_strings" | "use_tabs" => (*t.pick(&["true", "false"])).to_string(),
-        "tab_width" => (*t.pick(&[2u32, 4, 3, 8, 1])).to_string(),
+        "tab_width" => (*t.pick(&[2u32, 4, 3, 8, 1, 16, 0])).to_string(),
         "continuation_indents" => (*t.pick(&[2u32, 1, 3, 0])).to_string(),
         _ => q(*t.pick(&["lf", "crlf"])),
     }
@@ -139,6 +139,7 @@ impl Prop for C19Prop {
             scn.invalid = (*t.pick(&[
                 "unknown-key-file", "unknown-key-cli", "nested-key", "bad-type-file", "bad-type-cli", "out-of-range",
                 "bad-enum", "missing-config-file", "dir-config-file", "no-equals", "negative", "bad-enum-file", "non-utf8-file", "syntax-error-file",
+                "case-key-cli", "case-key-file",
             ]))
             .to_string();
         }
@@ -168,6 +169,8 @@ impl Prop for C19Prop {
         let mut file_opts = scn.file_opts.clone();
         match scn.invalid.as_str() {
             "unknown-key-file" => file_opts.push(("wrap_colum".into(), "10".into())),
+            // option names are case-sensitive: these are unknown keys
+            "case-key-file" => file_opts.push(("Tab_Width".into(), "4".into())),
             "nested-key" => file_opts.push(("reconstruction.tab_width".into(), "3".into())),
             "bad-type-file" => file_opts.push(("unused".into(), "1".into())),
             "bad-enum-file" => {
@@ -181,7 +184,7 @@ impl Prop for C19Prop {
             file_opts.retain(|(k, _)| k != "use_tabs");
             file_opts.push(("use_tabs".into(), "\"maybe\"".into()));
         }
-        let needs_file = matches!(scn.invalid.as_str(), "unknown-key-file" | "nested-key" | "bad-type-file" | "bad-enum-file" | "non-utf8-file" | "syntax-error-file");
+        let needs_file = matches!(scn.invalid.as_str(), "unknown-key-file" | "case-key-file" | "nested-key" | "bad-type-file" | "bad-enum-file" | "non-utf8-file" | "syntax-error-file");
         if needs_file && scn.depth.is_none() && scn.explicit.is_none() {
             scn.depth = Some(0);
         }
@@ -229,6 +232,9 @@ impl Prop for C19Prop {
         }
         match scn.invalid.as_str() {
             "unknown-key-cli" => args.push("-Cwrap_colum=10".into()),
+            "case-key-cli" => args.push(
+                ["-CWRAP_COLUMN=40", "-CTab_width=4", "-CUse_Tabs=true", "-CLine_ending=lf"][scn.cli_opts.len() % 4].into(),
+            ),
             "bad-type-cli" => args.push("-Ctab_width=wide".into()),
             "out-of-range" => args.push("-Ctab_width=256".into()),
             "negative" => args.push("-Cwrap_column=-1".into()),
